@@ -25,7 +25,9 @@ func (c10) Rule() string {
 }
 func (c10) Assumptions() []string {
 	return []string{
-		"don't-care: undefined qr.Encoding / ErrorCorrectionLevel values, FNC placeholder runes in basic-mode Code 93 content, empty content where the symbology has no length rule, PDF417 totals 901..928 codewords, Aztec/PDF417 payloads whose encoded length is not exactly predictable from the outside (only forced-class payloads are judged near capacity), negative Aztec percentages",
+		"don't-care: undefined qr.Encoding / ErrorCorrectionLevel values, empty content where the symbology has no length rule, PDF417 totals 901..928 codewords, PDF417 payloads whose encoded length is not exactly predictable from the outside beyond 2 codewords per character, negative Aztec percentages",
+		"capacity is read relative to the compaction each encoder implements (as C13 words it): content beyond it but below the densest encoding of the standard (DataMatrix beyond ASCII encodation, QR Auto beyond any single mode, PDF417 beyond its greedy text sub-mode choice) may be refused; if accepted, the symbol must decode to the content",
+		"Aztec general text: must-accept when one valid latch-only encoding (refdec.AztecSimpleBits) fits with three words of margin, must-reject above 2.5 bits per byte; exact for upper-case-only and bytes >= 0x80",
 		"non-termination is decided on CPU time of the child process (120 CPU-seconds without progress) and a goroutine dump naming a library frame",
 	}
 }
